@@ -140,6 +140,8 @@ func (p *Prog) Run(bs map[string]interface{}) Outcome {
 				}
 				cur[op.K] = list
 			}
+		case "propSet":
+			// writes into the step properties: no effect on the result
 		case "emit":
 			emitted = append(emitted, jsongen.Copy(op.V))
 		case "emitOf":
@@ -232,6 +234,12 @@ func (p *Prog) ES() string {
 			fmt.Fprintf(&sb, "if (Array.isArray(bs[%s]) && bs[%s].length > 0 && bs[%s][0] !== null && typeof bs[%s][0] === 'object' && !Array.isArray(bs[%s][0])) { bs[%s][0][%s] = %s; }\n", k, k, k, k, k, k, js(op.Keys[0]), js(op.V))
 		case "matchStore":
 			fmt.Fprintf(&sb, "bs[%s] = _.match(%s, (bs[%s] === undefined ? null : bs[%s]), {});\n", k, js(op.V), js(op.Keys[0]), js(op.Keys[0]))
+		case "propSet":
+			if op.K == "lst" {
+				fmt.Fprintf(&sb, "if (_.props && Array.isArray(_.props.lst) && _.props.lst.length > 1 && _.props.lst[1] && typeof _.props.lst[1] === 'object') { _.props.lst[1][%s] = %s; }\n", js(op.Keys[0]), js(op.V))
+			} else {
+				fmt.Fprintf(&sb, "if (_.props && _.props[%s] !== null && typeof _.props[%s] === 'object') { _.props[%s][%s] = %s; } else if (_.props) { _.props[%s] = %s; }\n", k, k, k, js(op.Keys[0]), js(op.V), k, js(op.V))
+			}
 		case "emit":
 			fmt.Fprintf(&sb, "_.out(%s);\n", js(op.V))
 		case "emitOf":
@@ -368,6 +376,7 @@ type ProgOpts struct {
 	Emit      bool
 	Fail      int  // weight (0..10) of a failing op being included
 	Spin      bool // allow non-termination (caller sets a deadline)
+	Props     bool // may write into the step properties (ECMAScript only; natives leave them alone)
 	Keys      []string
 	MaxOps    int
 	ValueOpts *jsongen.Opts
@@ -397,11 +406,17 @@ func GenProg(t *rapid.T, o ProgOpts, label string) *Prog {
 		if o.Guard {
 			kinds = append(kinds, "acceptIf", "acceptIf", "acceptIf")
 		}
+		if o.Props {
+			kinds = append(kinds, "propSet", "propSet")
+		}
 		kind := rapid.SampledFrom(kinds).Draw(t, l+".op")
 		k := rapid.SampledFrom(keys).Draw(t, l+".k")
 		switch kind {
 		case "set", "push":
 			p.Ops = append(p.Ops, Op{Op: kind, K: k, V: jsongen.Value(t, vo, l+".v")})
+		case "propSet":
+			p.Ops = append(p.Ops, Op{Op: kind, K: rapid.SampledFrom([]string{"p", "q", "s1", "s2", "lst", "fresh"}).Draw(t, l+".pk"),
+				Keys: []string{rapid.SampledFrom([]string{"k", "z", "nested"}).Draw(t, l+".pkk")}, V: jsongen.Scalar(t, jsongen.Opts{NoNull: true, Strs: vo.Strs, Nums: vo.Nums}, l+".pv")})
 		case "emit":
 			p.Ops = append(p.Ops, Op{Op: kind, V: jsongen.Value(t, vo, l+".v")})
 		case "del", "inc", "emitOf":
